@@ -1,6 +1,7 @@
 /-
 C04 — totality: no input makes the library panic or run unboundedly (evaluation part; the parser
-part is OH/Props/C04Parser.lean once the parser model lands).
+part is OH/Props/C04P.lean: `parse` never panics, for every string; the end-to-end statements from the
+string are OH/Props/C04E.lean).
 
 Every model function returns `Except String α` with one `.error` per Rust panic site; "no panic" is
 "never `.error`".  Proved:
@@ -14,9 +15,10 @@ Every model function returns `Except String α` with one `.error` per Rust panic
  * `Schedule` iteration never hits `pre_yield`'s assert on any API-built schedule (C14 `iter_no_panic`);
  * `easter` never hits its two `expect`s for any integer year; `count_days_in_month`'s `expect` is
    unreachable on every representable day; `CompactCalendar` histories never panic (C15 `history`).
-NOT proved yet (exercised by `c04.*` under `catch_unwind`, any panic is a violation): absence of
-`.error` in `scheduleAt`/`nextChangeHint` under `ParserWF` (the remaining sites are `% step` with a zero
-step and the `nth` array index, both excluded by the parser's range checks).
+Proved elsewhere and combined in OH/Props/C04E.lean: the schedule of every day in every context never
+errors under `ParserWF` (`C04_schedule_total`, OH/Props/C01.lean); the day level of every `ParserWF`
+expression within the decidable scope `exprHintSafe` meets `EnvOK`, so no hint errors
+(`envOK_of_parserWF`, OH/Props/C02B.lean); every accepted string yields a `ParserWF` expression.
 Cannot be exhibited by the model: stack exhaustion, allocation failure, panics inside dependencies.
 -/
 import OH.Props.C02
